@@ -65,6 +65,31 @@ add("C20", "exploration", "runtime monitor: String() of every constant and of al
     "Trusted base: go/parser reading types.go; the Type(n) convention of the Go stringer.",
     "DESIGN.md §3 C20")
 
+add("C01", "exploration", "runtime monitor: panic/hang guard (recover, logical read-after-EOF bound, doubly-confirmed watchdog, child-process crash capture) over a complete enumeration of single-field definitions and over structured mutants through six entry points and several read chunkings",
+    "Totality is decided by observing executions under a guard that turns panics, fatal runtime errors, logical hangs and memory blow-ups into events. The single-field definition space (message x field number x base byte x size x byte order) is enumerated completely for the tier's message/field set; arbitrary byte strings are sampled by structured mutation through all six entry points and three chunkers.",
+    "Trusted base: the guard in lib/exec.go and the process-level crash capture in lib/framework.go; 'every byte string' is sampled outside the enumerated sub-space.",
+    "DESIGN.md §3 C01")
+add("C04", "fault_enumeration", "fault injection: enumeration of bit-burst corruptions of valid files and of header field/CRC variants, verdicts of four APIs compared with a reference verdict",
+    "Every bit position of 44 small valid files (all 17 types, both header sizes, Encode outputs, device files) is corrupted with XOR bursts of span <= 16 bits (quick: all 1- and 2-bit patterns everywhere plus all 2^15 patterns on every 29th position; thorough: all patterns everywhere) and both Decode and CheckIntegrity must report an error; header variants are enumerated and the verdicts of CheckIntegrity(headerOnly), DecodeHeader, Decode and Header.CheckIntegrity compared with a reference verdict.",
+    "Trusted base: bit-serial CRC for the header verdict; the burst guarantee is taken in the checksum's serial (LSB-first) bit order.",
+    "DESIGN.md §3 C04")
+add("C08", "exploration", "runtime monitor over call histories: result digest of every call vs the same call made first in a fresh process (one child process per distinct call) and vs its immediate repetition",
+    "PRNG call histories (40-200 calls over device files, model streams with every accumulated component source, API-built Files) each run in their own process; every call's result digest is compared with a fresh-process baseline and with its immediate repetition; Encode is additionally run twice on identical Files. Sampled.",
+    "Trusted base: the digest covers everything a user can observe (lib/content.go); record.distance is canonicalised through the defect predictor for known findings F5/F6.",
+    "DESIGN.md §3 C08")
+add("C09", "exploration", "Go race detector (-race build of harness and library, GORACE log parsed and classified by innermost repository frames) plus per-call digest vs sequential baseline under 2-64 goroutines with yielding short-read readers",
+    "Concurrent PRNG call sequences on private inputs under the race detector; reports are de-duplicated by the innermost repository frame pair and entry points; every call's digest must equal the digest of the call run alone; the evidence records how many calls actually overlapped and which call-kind pairs did. Sampled schedules.",
+    "Trusted base: the Go race detector (reports only races that occur in the produced executions); known finding F5 matched by stack signature.",
+    "DESIGN.md §3 C09")
+add("C10", "exploration", "runtime monitor: counting/poisoned reader (frame || poison || next file) under 14 read chunkings; bytes delivered and results compared per entry point; chained vs solo decode",
+    "Every entry point is run on device frames and model files of sizes straddling the internal buffer under 14 chunkers through a reader that would deliver poison past the frame; consumption must be exact on success and never exceed the frame; chains must decode to the solo results. Sampled files x complete chunker set.",
+    "Trusted base: lib/exec.go Reader (counts delivered bytes); greedy chunkers make any over-ask visible.",
+    "DESIGN.md §3 C10")
+add("C11", "fault_enumeration", "fault injection at every byte offset: clean cut and injected read error, six entry points, two chunkers; partial Files compared with the reference interpretation of the complete records",
+    "For each stream of the set, every offset x {clean cut, non-EOF read fault} x six entry points x {1-byte, greedy} is executed and judged against the needed-prefix rule; partial Files must hold exactly the records complete before the cut. Complete over the offsets of the chosen streams; the streams are sampled.",
+    "Trusted base: plan record offsets (ref/wire.go) and the reference interpreter for partial content.",
+    "DESIGN.md §3 C11")
+
 ALL = ["C%02d" % i for i in range(1, 21)]
 
 def main():
